@@ -60,4 +60,9 @@ def evalModesAbs (T : Table α) (xs : List α) (cs : List Nat) (ms : List BasisM
 def ndsplineevalAbs (T : Table α) (xs : List α) (cs : List Nat) (mask : Nat) : α :=
   evalModesAbs T xs cs (maskModes T.dims.length mask)
 
+/-- derivative bitmask a gradient lane corresponds to: lane 0 = value, lane `1+d` = `1<<d` -/
+def laneMask : Nat → Nat
+  | 0 => 0
+  | l+1 => 2 ^ l
+
 end PsV
